@@ -76,6 +76,7 @@ type Ctx struct {
 	boxTypes map[string]types.Type
 	cloIDs   map[*ssa.Function]int
 	inputMode bool
+	synthFns  map[string]*ssa.Function
 	axioms   []*Term
 
 	Bool, Int, Ref, Iface, Str, Slice, Unit, MapH, Float *Sort
@@ -90,7 +91,7 @@ type Decl struct {
 }
 
 func NewCtx(p *Program) *Ctx {
-	c := &Ctx{terms: map[string]*Term{}, sorts: map[string]*Sort{}, typeSort: map[types.Type]*Sort{}, decls: map[string]*Decl{}, strLits: map[string]*Term{}, boxTypes: map[string]types.Type{}, cloIDs: map[*ssa.Function]int{}, prog: p}
+	c := &Ctx{terms: map[string]*Term{}, sorts: map[string]*Sort{}, typeSort: map[types.Type]*Sort{}, decls: map[string]*Decl{}, strLits: map[string]*Term{}, boxTypes: map[string]types.Type{}, cloIDs: map[*ssa.Function]int{}, synthFns: map[string]*ssa.Function{}, prog: p}
 	c.Bool = c.addSort(&Sort{Name: "Bool", Kind: KBool})
 	c.Int = c.addSort(&Sort{Name: "Int", Kind: KInt})
 	c.Ref = c.Int
@@ -716,6 +717,15 @@ func (c *Ctx) Exists(vars []*Term, body *Term) *Term {
 
 // Clo is a closure value: function symbol + captured values.
 func (c *Ctx) Clo(fn *ssa.Function, s *Sort, bindings ...*Term) *Term {
+	if strings.HasPrefix(fn.Synthetic, "bound method wrapper") || strings.HasPrefix(fn.Synthetic, "thunk") {
+		// go/ssa may create several identical wrappers (bound methods, thunks): one representative
+		k := fn.Synthetic + "|" + fn.String()
+		if o, ok := c.synthFns[k]; ok {
+			fn = o
+		} else {
+			c.synthFns[k] = fn
+		}
+	}
 	return c.mk(&Term{Op: "clo", Name: fn.String(), Fn: fn, Args: bindings, Sort: s})
 }
 
